@@ -91,6 +91,7 @@ type AScenario struct {
 	Keys          []string   `json:"keys"`                                      // orchestration key fields
 	MetricKeys    []string   `json:"metric_keys,omitempty"`                     // metricKeys of the configuration (default: host)
 	Out2          bool       `json:"second_output,omitempty"`                   // a second output/buffer pair with different serialization settings (reference count 2 per record)
+	Umask         int        `json:"umask,omitempty"`                           // process umask (octal value as decimal int): 0, 027 or 077
 	UnescIn       bool       `json:"unescape_in_extractions,omitempty"`         // the unescape step also sits among the input extractions, where records queue up after it
 	AcceptErrs    []int      `json:"accept_errors_before_connection,omitempty"` // the accept(2) that would return the k-th connection first fails once with a transient error (EMFILE)
 	Fine          bool       `json:"fine_yields,omitempty"`                     // every larger function entry of the agent is a preemption point in this run
@@ -622,6 +623,7 @@ func (w *worldA) tweak(r *simrt.Rand, s *AScenario, end int) {
 			}
 		}
 	case "c06":
+		s.Umask = []int{0, 0, 0o027, 0o077}[r.Intn(4)] // a restrictive umask is an ordinary deployment setting (systemd UMask=)
 		nk := 1 + r.Intn(3)
 		s.Keys = [][]string{{"app"}, {"app", "pid"}, {"app", "level", "pid"}}[nk-1]
 		// (single-variable templates too: the tag builder returns the key string itself for them, without copying)
@@ -1247,6 +1249,7 @@ func (r *aRun) drive() {
 	r.net.DefaultRx = 64 << 10
 	simsignal.Reset()
 	r.fs.MkdirAllRaw(aBufRoot)
+	r.fs.Umask = uint32(s.Umask)
 	r.setKnobs()
 	r.writeConfig("")
 	if r.out.Harness != "" {
